@@ -18,6 +18,9 @@ pub enum Bind {
     Bin,
     Tuple,
     Closure,
+    /// eight fresh binaries inside a tuple nested 24 deep, dropped by the next iteration: many
+    /// releases per instruction, so a whole slice's worth of drops reaches one reclamation round
+    Burst,
 }
 
 #[derive(Clone, Debug, PartialEq)]
@@ -82,7 +85,7 @@ pub struct Shape {
 }
 
 fn bind() -> impl Strategy<Value = Bind> {
-    prop_oneof![Just(Bind::Int), Just(Bind::Bin), Just(Bind::Tuple), Just(Bind::Closure)]
+    prop_oneof![3 => Just(Bind::Int), 3 => Just(Bind::Bin), 3 => Just(Bind::Tuple), 3 => Just(Bind::Closure), 2 => Just(Bind::Burst)]
 }
 
 fn wraps() -> impl Strategy<Value = Vec<Wrap>> {
@@ -114,6 +117,10 @@ fn bind_expr(b: &Bind, salt: usize) -> String {
         Bind::Bin => format!("[0xcd, {}] __binary_repeat__", 1 + salt % 3),
         Bind::Tuple => "[n, [acc, n]]".to_string(),
         Bind::Closure => "#{ n }".to_string(),
+        Bind::Burst => {
+            let b = "[0x01, 0x02] __binary_concat__";
+            format!("{}[{b}, {b}, {b}, {b}, {b}, {b}, {b}, {b}]{}", "[".repeat(24), "]".repeat(24))
+        }
     }
 }
 
@@ -315,9 +322,9 @@ fn allocates(s: &Shape) -> bool {
     s.state_bins > 0
         || bodies.iter().any(|b| {
             matches!(b.delta, Delta::BinLen | Delta::PreBin)
-                || b.pre.contains(&Bind::Bin)
-                || b.wraps.contains(&Wrap::Bind(Bind::Bin))
-                || b.alt.as_ref().is_some_and(|a| a.contains(&Wrap::Bind(Bind::Bin)))
+                || b.pre.iter().any(|k| matches!(k, Bind::Bin | Bind::Burst))
+                || b.wraps.iter().any(|w| matches!(w, Wrap::Bind(Bind::Bin | Bind::Burst)))
+                || b.alt.as_ref().is_some_and(|a| a.iter().any(|w| matches!(w, Wrap::Bind(Bind::Bin | Bind::Burst))))
         })
 }
 
@@ -501,6 +508,9 @@ pub fn run(ctx: &Ctx) -> i32 {
                         Wrap::Redundant => "wrap:redundant-liftable-block",
                         Wrap::Step => "wrap:step-before-call",
                     });
+                }
+                if s.a.pre.contains(&Bind::Burst) || s.b.pre.contains(&Bind::Burst) || ws.iter().any(|w| matches!(w, Wrap::Bind(Bind::Burst))) {
+                    stats.class("burst-of-drops-per-iteration");
                 }
                 if s.a.alt.is_some() {
                     stats.class("two-different-paths-by-parity");
